@@ -24,8 +24,8 @@ func (n *LogicalExpressionNode) splice(loc *position.Location, args *[]Node, unq
 	return &LogicalExpressionNode{
 		TypedNodeBase: TypedNodeBase{loc: position.SpliceLocation(loc, n.loc, unquote), typ: n.typ},
 		Op:            n.Op.Splice(loc, unquote),
-		Left:          n.Left.splice(loc, args, unquote).(ComplexConstantNode),
-		Right:         n.Right.splice(loc, args, unquote).(ComplexConstantNode),
+		Left:          n.Left.splice(loc, args, unquote).(ExpressionNode),
+		Right:         n.Right.splice(loc, args, unquote).(ExpressionNode),
 	}
 }
 
